@@ -268,6 +268,27 @@ def run(ctx):
                 ctx.check("momenta file round trip", bool(okq and okc), lambda: dict(desc(), file=os.path.relpath(fnq, wd), momenta_read_back=bool(okq), charge_file=new_files,
                                                                                   charge_file_ok=bool(okc)),
                           mechanism="CalAngleData.savetxt(save_charge=True) -> load_dat_file (%s)" % kind_)
+            # writing with the charge-conjugation transform undone (cp_trans=True) from a sample whose leaves are NumPy arrays (as after
+            # data_to_numpy or a cached-data file): the files hold (E, c px, c py, c pz), the sample itself is left as it was, and a second
+            # write of the same sample gives the same file
+            try:
+                dnp = D.data_to_numpy({k_: v_ for k_, v_ in data.items()})
+                dnp["charge_conjugation"] = charges.copy()
+                mom_before = {nm: np.array(np.asarray(D.data_index(dnp, ("particle", [p_ for p_ in dnp["particle"] if str(p_) == nm][0], "p")))) for nm in names}
+                fa, fb = os.path.join(wd, "cadcp_a_%d.dat" % i), os.path.join(wd, "cadcp_b_%d.dat" % i)
+                CalAngleData(dnp).savetxt(fa, order=order, cp_trans=True)
+                CalAngleData(dnp).savetxt(fb, order=order, cp_trans=True)
+                mom_after = {nm: np.asarray(D.data_index(dnp, ("particle", [p_ for p_ in dnp["particle"] if str(p_) == nm][0], "p"))) for nm in names}
+                ra, rb = D.load_dat_file(fa, order), D.load_dat_file(fb, order)
+                cc = charges[:, None] * np.array([0.0, 1.0, 1.0, 1.0]) + np.array([1.0, 0.0, 0.0, 0.0])
+                ok_file = all(np.allclose(np.asarray(ra[nm]), mom_before[nm] * cc, rtol=1e-15, atol=0) for nm in order)
+                ok_same = all(np.array_equal(np.asarray(ra[nm]), np.asarray(rb[nm])) for nm in order)
+                ok_live = all(np.array_equal(mom_before[nm], mom_after[nm]) for nm in names)
+                ctx.check("momenta file round trip", bool(ok_file and ok_same and ok_live),
+                          lambda: dict(desc(), first_file_ok=bool(ok_file), second_write_identical=bool(ok_same), sample_unchanged_by_writing=bool(ok_live), negative_charges=int(np.sum(charges < 0))),
+                          mechanism="CalAngleData.savetxt(cp_trans=True) from NumPy leaves: " + ("file content" if not ok_file else "sample modified / second write differs"))
+            except Exception as e:
+                ctx.violation("momenta file round trip", ctx.exc_witness(e, **desc()), mechanism="CalAngleData.savetxt(cp_trans=True) raises")
             # multi-file input: the particles are distributed over several files (k particles in the first, the rest in the second)
             arr = np.stack([ps[j] for j in perm]).transpose((1, 0, 2))  # (n, nb, 4)
             if n >= 5:
